@@ -94,6 +94,8 @@ fn canon_with(ty: &Ty, v: &Val, strict: bool) -> Result<Val, CanonErr> {
     match ty {
         Ty::Named(n) => canon_with(&resolve(n), v, strict),
         Ty::Wrap(t) => canon_with(t, v, strict),
+        // never compared: the position belongs to the client codec
+        Ty::Lenient(_) => Ok(Val::Unit),
         Ty::Opt(t) => match v {
             Val::None => Ok(Val::None),
             Val::Some(x) => Ok(Val::some(canon_with(t, x, strict)?)),
@@ -205,7 +207,7 @@ fn canon_with(ty: &Ty, v: &Val, strict: bool) -> Result<Val, CanonErr> {
 pub fn with_transient_defaults(ty: &Ty, v: &Val) -> Val {
     match ty {
         Ty::Named(n) => with_transient_defaults(&resolve(n), v),
-        Ty::Wrap(t) => with_transient_defaults(t, v),
+        Ty::Wrap(t) | Ty::Lenient(t) => with_transient_defaults(t, v),
         Ty::Opt(t) => match v {
             Val::Some(x) => Val::some(with_transient_defaults(t, x)),
             _ => v.clone(),
@@ -262,7 +264,7 @@ fn record_defaults(schema: &RecordSchema, xs: &[Val]) -> Vec<Val> {
 pub fn scramble_transients(ty: &Ty, v: &Val, rng: &mut crate::rng::Rng, ctx: &crate::genval::GenCtx) -> Val {
     match ty {
         Ty::Named(n) => scramble_transients(&resolve(n), v, rng, ctx),
-        Ty::Wrap(t) => scramble_transients(t, v, rng, ctx),
+        Ty::Wrap(t) | Ty::Lenient(t) => scramble_transients(t, v, rng, ctx),
         Ty::Opt(t) => match v {
             Val::Some(x) => Val::some(scramble_transients(t, x, rng, ctx)),
             _ => v.clone(),
